@@ -11,9 +11,17 @@ The pivot is carried as a list [py, px] in the JSON problem and handed to the so
 with (y, x) tuples).
 
 Key order: the BoolGridFrame(h-1, w-1) edges (horizontal row-major, then vertical row-major); bools.
+
+Large family (shape descriptors ("large", h, w)): boards beyond the reach of base.loops() use the exact frontier enumerator
+slitherlink.enum_loops() with the per-cell filter "degree 2 on a free cell, no line on a blocked cell"; instances: blocked
+sets that are the complement of seed loops, thinned (every k-th blocked cell freed) and altered (one blocked cell moved,
+two neighbouring cells blocked / freed - always an even number of free cells), all-free boards, blocked last row / column /
+corners; the pivot rotates through the far corner, the first cell, the last row, the last column, a free and a blocked cell.
+On these boards only instances whose exact enumeration stays within a fixed node budget are kept (slitherlink.within_budget).
 """
 
 from . import base
+from .slitherlink import enum_loops, vertex_edges, seed_loops, dense_family, uniq, within_budget
 
 _CACHE = {}
 
@@ -28,16 +36,122 @@ def _cands(h, w):
     return _CACHE[(h, w)]
 
 
+OLD_PATH_MAX_VERTICES = 20  # boards of the small ladder keep the original oracle (base.loops + filter)
+SOLUTION_CAP = 400000
+_LARGE = {}
+
+
+def _checks(h, w, blocked):
+    ve = vertex_edges(h, w)
+    checks = []
+    watches = []
+    for y in range(h):
+        for x in range(w):
+            own = [e for e in ve[y * w + x] if e is not None]
+            if blocked[y][x] == 0:
+                checks.append((own, lambda E, own=own: sum(1 for e in own if E[e]) == 2))
+            else:
+                watches.append((own, lambda E, own=own: not any(E[e] for e in own)))
+    return checks, watches
+
+
+def _large_instances(h, w, thorough):
+    key = (h, w, thorough)
+    if key in _LARGE:
+        return _LARGE[key]
+    cells = [(y, x) for y in range(h) for x in range(w)]
+    far = (h - 1, w - 1)
+
+    def even(bl):
+        """Make the number of free cells even by toggling one cell: free the last blocked cell, or block the far corner."""
+        bl = set(bl)
+        if (h * w - len(bl)) % 2:
+            if bl:
+                bl.discard(max(bl))
+            else:
+                bl.add(far)
+        return bl
+
+    sets = []
+    light = [set(), {far, (0, 0)}, {(h - 1, x) for x in range(w)}, {(y, w - 1) for y in range(h)}]
+    if min(h, w) == 1:
+        light = [set(cells), set(), {far}, set(cells) - {far, (0, 0)}]  # only the fully blocked line has an answer
+    elif not thorough and h != w:
+        light = light[:2]
+    if thorough or h == w:
+        light += [{far, (h - 1, 0)}, {(0, w - 1), (h - 1, 0)}, {(h - 1, w // 2), (h // 2, w - 1)}, set(cells), set(cells) - {far, (h - 1, w - 2)}]
+    for bl in light:
+        sets.append(even(bl))
+    nseeds = 2 if thorough else 1
+    if h * w > 42:
+        # a nearly Hamiltonian seed loop leaves an open board with far too many answers: of six seed loops take the shortest
+        seeds = sorted(seed_loops(h, w, 6), key=lambda g: sum(g))[:nseeds]
+    else:
+        seeds = seed_loops(h, w, nseeds)
+    for g in seeds:
+        ve = vertex_edges(h, w)
+        on = set(c for c in cells if any(e is not None and g[e] for e in ve[c[0] * w + c[1]]))
+        off = sorted(set(cells) - on)
+        fam = dense_family({c: 1 for c in off}, h, w, lambda v, dl, c: None, thorough)
+        for clues in fam:
+            sets.append(even(clues))
+        # one blocked cell moved: freed, and a free cell blocked instead (its neighbour on the board, else the first free cell)
+        chosen = []
+        for c in [off[-1] if off else None, off[0] if off else None, off[len(off) // 2] if off else None] + [c for c in (far, (0, w - 1), (h - 1, 0)) if c in off]:
+            if c is not None and c not in chosen:
+                chosen.append(c)
+        for i, c in enumerate(chosen if thorough else chosen[:2]):
+            nb = [(c[0] + dy, c[1] + dx) for dy, dx in ((0, 1), (1, 0), (0, -1), (-1, 0))]
+            nb = [q for q in nb if q in on]
+            f = nb[0] if (nb and i % 2 == 0) else min(on)
+            sets.append((set(off) - {c}) | {f})
+        # two neighbouring loop cells blocked; two neighbouring blocked cells freed
+        lo = sorted(on)
+        pairs = [(a, b) for a in lo for b in ((a[0], a[1] + 1), (a[0] + 1, a[1])) if b in on]
+        if pairs:
+            for a, b in [pairs[-1]] + ([pairs[0], pairs[len(pairs) // 2]] if thorough else []):
+                sets.append(set(off) | {a, b})
+        pairs = [(a, b) for a in off for b in ((a[0], a[1] + 1), (a[0] + 1, a[1])) if b in off]
+        if pairs:
+            for a, b in [pairs[-1]] + ([pairs[0], pairs[len(pairs) // 2]] if thorough else []):
+                sets.append(set(off) - {a, b})
+    out = []
+    seen = []
+    for bl in sets:
+        if bl in seen:
+            continue
+        seen.append(bl)
+        blocked = [[1 if (y, x) in bl else 0 for x in range(w)] for y in range(h)]
+        checks, watches = _checks(h, w, blocked)
+        if not within_budget(h, w, checks, watches, budget=50000):
+            continue
+        free = [c for c in cells if c not in bl]
+        pivots = [far, (0, 0), (h - 1, w // 2), (h // 2, w - 1)] + ([free[0]] if free else []) + ([min(bl)] if bl else [])
+        k = len(out)
+        for pv in [pivots[k % len(pivots)]] + ([pivots[(k + 3) % len(pivots)]] if thorough and k % 4 == 0 else []):
+            out.append({"height": h, "width": w, "blocked": blocked, "pivot": [pv[0], pv[1]]})
+    out = uniq(out)
+    _LARGE[key] = out
+    return out
+
+
 class SimpleLoop(base.Rule):
     name = "simpleloop"
 
     def shapes(self, tier):
         s = [(1, 1), (1, 2), (2, 1), (1, 3), (3, 1), (2, 2), (2, 3), (3, 2), (3, 3)]
+        large = [(6, 6), (8, 8), (5, 7), (7, 5), (2, 12), (12, 2), (1, 12), (12, 1)]
         if tier == "quick":
-            return s + [(3, 4), (4, 3)]
-        return s + [(1, 4), (4, 1), (2, 4), (4, 2), (3, 4), (4, 3), (4, 4), (2, 5), (5, 2), (3, 5), (5, 3)]
+            return s + [(3, 4), (4, 3)] + [("large", h, w) for h, w in large]
+        large += [(5, 5), (7, 7), (4, 9), (9, 4), (6, 7), (7, 6), (10, 10), (6, 9), (9, 6), (3, 12), (12, 3), (2, 15), (15, 2)]
+        s = s + [(1, 4), (4, 1), (2, 4), (4, 2), (3, 4), (4, 3), (4, 4), (2, 5), (5, 2), (3, 5), (5, 3)]
+        return s + [("large", h, w) for h, w in large]
 
     def instances(self, shape, cap):
+        if shape[0] == "large":
+            for p in _large_instances(shape[1], shape[2], cap > 1000):
+                yield p
+            return
         h, w = shape
         # cap rule on the blocked grids (<= k blocked cells); each parity-consistent grid is posed with every pivot
         lays, k = base.layouts(h * w, 0, [1], cap)
@@ -64,6 +178,16 @@ class SimpleLoop(base.Rule):
         return is_sat, base.sols_of(frame)
 
     def readings(self, p):
+        if p["height"] * p["width"] > OLD_PATH_MAX_VERTICES:
+            return [self.readings_large(p)]
+        return self.readings_small(p)
+
+    def readings_large(self, p):
+        h, w = p["height"], p["width"]
+        checks, watches = _checks(h, w, p["blocked"])
+        return enum_loops(h, w, checks, watches, cap=SOLUTION_CAP)
+
+    def readings_small(self, p):
         h, w, blocked = p["height"], p["width"], p["blocked"]
         free = frozenset((y, x) for y in range(h) for x in range(w) if blocked[y][x] == 0)
         return [[loop for loop, passed in _cands(h, w) if passed == free]]
@@ -73,3 +197,26 @@ class SimpleLoop(base.Rule):
 
 
 RULE = SimpleLoop()
+
+
+def selftest():
+    """The pruned large-board oracle against the original filter oracle: every blocked grid (all 2^(h*w)) of the boards up
+    to 12 cells, all grids with <= 3 blocked cells and every loop complement on 4 x 4, 3 x 5, 5 x 3, 4 x 5."""
+    r = RULE
+    n = 0
+    for h, w in [(1, 1), (1, 3), (2, 2), (2, 3), (3, 2), (3, 3), (3, 4), (4, 3), (2, 5)]:
+        for mask in range(1 << (h * w)):
+            p = {"height": h, "width": w, "blocked": base.grid([mask >> k & 1 for k in range(h * w)], h, w), "pivot": [0, 0]}
+            assert sorted(r.readings_small(p)[0]) == sorted(r.readings_large(p)), p
+            n += 1
+    for h, w in [(4, 4), (3, 5), (5, 3), (4, 5)]:
+        lays, k = base.layouts(h * w, 0, [1], 1400)
+        grids = [base.grid(cells, h, w) for cells in lays]
+        for loop, passed in _cands(h, w):
+            grids.append([[0 if (y, x) in passed else 1 for x in range(w)] for y in range(h)])
+        for g in grids:
+            p = {"height": h, "width": w, "blocked": g, "pivot": [0, 0]}
+            assert sorted(r.readings_small(p)[0]) == sorted(r.readings_large(p)), p
+            n += 1
+    return n
+
